@@ -109,6 +109,7 @@ type hdHist struct {
 	answered    int64 // UpdatedAt of the request state whose answers have been sent
 	actionTime  int
 	lateDone    bool   // the one late extension of this history has been made
+	stoppedMid  bool   // the table was paused / closed in the middle of a hand (the history ends there)
 	withholdAt  string // at the first request of this kind one asked player stays silent and the 17 s time-out is waited out
 	withheld    bool
 }
@@ -487,6 +488,9 @@ func (h *hdHist) internalFault() bool {
 	left := h.be.FailKindLeft
 	h.be.FailKindLeft = 0
 	h.be.muF.Unlock()
+	if h.stoppedMid {
+		return false // the table was paused / closed in the middle of this hand: the history ends here
+	}
 	if left != 0 {
 		return true // not consumed: nothing to judge
 	}
@@ -660,6 +664,27 @@ func (h *hdHist) playHandSteps(maxSteps int) bool {
 				h.st.ByLeaves++
 				schedBarrier(2)
 				h.flush() // the departure re-publishes the table (same hand state)
+			}
+			if !h.stoppedMid && h.r.Intn(40) == 0 {
+				// the table is paused (or closed) in the middle of the hand: from now on no hand is being played as far as the
+				// table is concerned, and the legal move of the player whose turn it is must be refused without a trace. The hand
+				// cannot go on after that: the history ends here.
+				h.stoppedMid = true
+				what := "pause"
+				if h.r.Intn(2) == 0 {
+					what = "close"
+					h.rig.te.CloseTable()
+				} else {
+					h.rig.te.PauseTable()
+				}
+				schedBarrier(2)
+				h.line("# the table was %sd in the middle of the hand", what)
+				if k, a := chooseMove(h.r, gs, p); k != "" {
+					h.st.Probes++
+					h.st.ProbeKinds["stopped-mid-hand/legal-move-of-the-current-player"]++
+					h.submit(actSpec{gameIDs[cur], k, a}, true, false)
+				}
+				return false
 			}
 			kind, arg := chooseMove(h.r, gs, p)
 			if kind == "" {
@@ -891,7 +916,7 @@ func genHDHistory(r *rand.Rand, st *hdStats, hid int, hands int, faultPct, probe
 		st.Hands++
 		st.Players[strconv.Itoa(len(gi))]++
 		// probes before anything was answered: wager actions at the readiness point, strangers, …
-		if !h.playHand(400) {
+		if !h.playHand(400) || h.stoppedMid {
 			break
 		}
 		tt := rig.live()
